@@ -493,7 +493,7 @@ func (x *vc) execInstr(fr *frame, st *state, instr ssa.Instruction) {
 		r := x.alloc(st, "mkmap")
 		mt := in.Type().Underlying().(*types.Map)
 		d, v, l := x.mapArrs(st, mt)
-		ks := x.srt.sortOf(mt.Key())
+		ks := x.mapKeySort(mt)
 		st.heap[d] = x.define(d, x.heapSorts[d], app("store", st.heap[d], r, fmt.Sprintf("((as const (Array %s Bool)) false)", ks)))
 		st.heap[l] = x.define(l, x.heapSorts[l], app("store", st.heap[l], r, "0"))
 		_ = v
@@ -509,12 +509,13 @@ func (x *vc) execInstr(fr *frame, st *state, instr ssa.Instruction) {
 			x.oblige(st, "mapinv", "", f, pos, "declared invariant of the values of "+mt.String()+" holds for the stored value", true)
 		}
 		d, va, l := x.mapArrs(st, mt)
-		had := app("select", app("select", st.heap[d], m.T), k.T)
+		kk := x.mapKey(mt, k.T)
+		had := app("select", app("select", st.heap[d], m.T), kk)
 		newLen := ite(had, app("select", st.heap[l], m.T), app("+", app("select", st.heap[l], m.T), "1"))
 		st.heap[l] = x.define(l, x.heapSorts[l], app("store", st.heap[l], m.T, newLen))
-		st.heap[d] = x.define(d, x.heapSorts[d], app("store", st.heap[d], m.T, app("store", app("select", st.heap[d], m.T), k.T, "true")))
+		st.heap[d] = x.define(d, x.heapSorts[d], app("store", st.heap[d], m.T, app("store", app("select", st.heap[d], m.T), kk, "true")))
 		if v.T != "" {
-			st.heap[va] = x.define(va, x.heapSorts[va], app("store", st.heap[va], m.T, app("store", app("select", st.heap[va], m.T), k.T, v.T)))
+			st.heap[va] = x.define(va, x.heapSorts[va], app("store", st.heap[va], m.T, app("store", app("select", st.heap[va], m.T), kk, v.T)))
 		}
 	case *ssa.Lookup:
 		m := x.value(fr, st, in.X)
@@ -526,8 +527,9 @@ func (x *vc) execInstr(fr *frame, st *state, instr ssa.Instruction) {
 		}
 		x.hashableKey(st, mt, k, pos)
 		d, va, _ := x.mapArrs(st, mt)
-		has := and(not(eq(m.T, "0")), app("select", app("select", st.heap[d], m.T), k.T))
-		val := ite(has, app("select", app("select", st.heap[va], m.T), k.T), x.srt.zero(mt.Elem()))
+		kk := x.mapKey(mt, k.T)
+		has := and(not(eq(m.T, "0")), app("select", app("select", st.heap[d], m.T), kk))
+		val := ite(has, app("select", app("select", st.heap[va], m.T), kk), x.srt.zero(mt.Elem()))
 		vv := Val{T: x.define("mapval", x.srt.sortOf(mt.Elem()), val), Typ: mt.Elem()}
 		x.assume(st.guard, x.typeInv(vv.T, mt.Elem(), st))
 		if f := x.mapInvFormula(st, mt, vv); f != "" {
@@ -542,7 +544,15 @@ func (x *vc) execInstr(fr *frame, st *state, instr ssa.Instruction) {
 		xv := x.value(fr, st, in.X)
 		if _, isMap := in.X.Type().Underlying().(*types.Map); isMap {
 			mv := xv
-			fr.vals[in] = Val{Typ: in.Type(), Iter: &iterInfo{isMap: true, m: &mv}}
+			// ghost state of the iteration: the set of keys produced so far (per iterator) and the key set at the start
+			mt := in.X.Type().Underlying().(*types.Map)
+			d, _, _ := x.mapArrs(st, mt)
+			ks := x.mapKeySort(mt)
+			r := x.alloc(st, "mapiter")
+			gv := x.visitedArr(st, mt)
+			st.heap[gv] = x.define(gv, x.heapSorts[gv], app("store", st.heap[gv], r, fmt.Sprintf("((as const (Array %s Bool)) false)", ks)))
+			dom0 := x.define("dom0", fmt.Sprintf("(Array %s Bool)", ks), ite(eq(mv.T, "0"), fmt.Sprintf("((as const (Array %s Bool)) false)", ks), app("select", st.heap[d], mv.T)))
+			fr.vals[in] = Val{Typ: in.Type(), Iter: &iterInfo{isMap: true, m: &mv, cell: r, dom0: dom0}}
 			break
 		}
 		r := x.alloc(st, "iter")
@@ -1191,9 +1201,40 @@ func rangeWithin(flo, fhi, lo, hi string) bool {
 	return le(lo, flo) && le(fhi, hi)
 }
 
+// Maps with string keys are indexed by the key's content, not by the string header: strkey maps a string to an
+// identifier of its content (two strings have the same identifier exactly when they are equal, streq).
+func (x *vc) mapKeySort(mt *types.Map) string {
+	if x.srt.sortOf(mt.Key()) == sStr {
+		return sInt
+	}
+	return x.srt.sortOf(mt.Key())
+}
+
+func (x *vc) mapKey(mt *types.Map, k string) string {
+	if x.srt.sortOf(mt.Key()) == sStr {
+		// the key of a quantifier over the members of a string-keyed map is keystr(id): its identifier is id
+		if strings.HasPrefix(k, "(keystr ") && strings.HasSuffix(k, ")") && !strings.ContainsAny(k[8:len(k)-1], " ()") {
+			return k[8 : len(k)-1]
+		}
+		return app("strkey", k)
+	}
+	return k
+}
+
+// visitedArr: ghost heap array holding, per map iterator, the set of keys the iteration has produced so far
+func (x *vc) visitedArr(st *state, mt *types.Map) string {
+	ks := x.mapKeySort(mt)
+	name := "GVIS_" + mangle(ks)
+	x.heapArr(st, name, fmt.Sprintf("(Array Int (Array %s Bool))", ks))
+	return name
+}
+
 func (x *vc) mapArrs(st *state, mt *types.Map) (dom, val, ln string) {
-	ks, vs := x.srt.sortOf(mt.Key()), x.srt.sortOf(mt.Elem())
+	ks, vs := x.mapKeySort(mt), x.srt.sortOf(mt.Elem())
 	suffix := mangle(ks) + "_" + mangle(vs)
+	if x.srt.sortOf(mt.Key()) == sStr {
+		suffix = "StrK_" + mangle(vs)
+	}
 	dom, val, ln = "MD_"+suffix, "MV_"+suffix, "ML"
 	x.heapArr(st, dom, fmt.Sprintf("(Array Int (Array %s Bool))", ks))
 	x.heapArr(st, val, fmt.Sprintf("(Array Int (Array %s %s))", ks, vs))
@@ -1213,8 +1254,22 @@ func (x *vc) next(fr *frame, st *state, in *ssa.Next) Val {
 		mt := it.Iter.m.Typ.Underlying().(*types.Map)
 		k := x.freshVal("k", mt.Key(), st)
 		d, va, _ := x.mapArrs(st, mt)
-		x.assume(and(st.guard, ok.T), app("select", app("select", st.heap[d], it.Iter.m.T), k.T))
-		v := Val{T: x.define("mv", x.srt.sortOf(mt.Elem()), app("select", app("select", st.heap[va], it.Iter.m.T), k.T)), Typ: mt.Elem()}
+		kk := x.mapKey(mt, k.T)
+		x.assume(and(st.guard, ok.T), and(not(eq(it.Iter.m.T, "0")), app("select", app("select", st.heap[d], it.Iter.m.T), kk))) // a nil map has no entries
+		if it.Iter.cell != "" {
+			// language specification: an entry present from the start of the iteration and not removed is produced exactly
+			// once; no entry is produced twice. visited: the keys produced so far.
+			gv := x.visitedArr(st, mt)
+			ks := x.mapKeySort(mt)
+			vis := app("select", st.heap[gv], it.Iter.cell)
+			x.assume(and(st.guard, ok.T), not(app("select", vis, kk)))
+			x.fresh++
+			q := fmt.Sprintf("qk!%d", x.fresh)
+			x.assume(and(st.guard, not(ok.T)), fmt.Sprintf("(forall ((%s %s)) (! (=> (and (select %s %s) (select (select %s %s) %s)) (select %s %s)) :pattern ((select %s %s)) :pattern ((select (select %s %s) %s))))",
+				q, ks, it.Iter.dom0, q, st.heap[d], it.Iter.m.T, q, vis, q, vis, q, st.heap[d], it.Iter.m.T, q))
+			st.heap[gv] = x.define(gv, x.heapSorts[gv], ite(ok.T, app("store", st.heap[gv], it.Iter.cell, app("store", vis, kk, "true")), st.heap[gv]))
+		}
+		v := Val{T: x.define("mv", x.srt.sortOf(mt.Elem()), app("select", app("select", st.heap[va], it.Iter.m.T), kk)), Typ: mt.Elem()}
 		x.assume(st.guard, x.typeInv(v.T, mt.Elem(), st))
 		if f := x.mapInvFormula(st, mt, v); f != "" {
 			x.assume(and(st.guard, ok.T), f)
